@@ -999,21 +999,9 @@ where
             lc
         })
         .collect();
-    sorted_lcs.sort_by(|a, b| {
-        if let Some(b_resume_lc) = &b.resume_lc {
-            if b_resume_lc.id == a.id {
-                // b is a resume of a so a must be earlier
-                return std::cmp::Ordering::Less;
-            }
-        }
-        if let Some(a_resume_lc) = &a.resume_lc {
-            if a_resume_lc.id == b.id {
-                // a is a resume of b so b must be earlier
-                return std::cmp::Ordering::Greater;
-            }
-        }
-        a.start_time.cmp(&b.start_time)
-    });
+    // we sort by the resume_start_time as this is never earlier than the start time of the resumed lifecycle.
+    // (comparing the start_time with special handling for direct resume relations is not a total order)
+    sorted_lcs.sort_by(|a, b| a.resume_start_time().cmp(&b.resume_start_time()));
     sorted_lcs
 }
 
